@@ -16,6 +16,7 @@ package main
 
 import (
 	"bytes"
+	"context"
 	"encoding/json"
 	"fmt"
 	"io"
@@ -720,6 +721,138 @@ func rateTrial(r *vh.Run, i int) {
 	}
 }
 
+// gcFlagTrial: the collection flags of `serve` (--gc-untagged, --gc-referrer-dangling, --gc-referrer-subject,
+// --gc-grace-period, --gc-frequency) reach the configuration fields they are documented for.  What each policy
+// *means* is C05/C06's subject; here the binary started with a flag combination is compared with an in-process server
+// given the equivalent config.Config on a copy of the same directory: after complete collections on both sides the
+// same content is served.  "A complete collection has happened" is observed, not timed: an unreferenced blob pushed
+// last (garbage under every policy once the grace period is off) has disappeared, twice in a row.
+func gcFlagTrial(r *vh.Run, bin string, i int) {
+	rng := r.Rand(8_000_000 + i)
+	U, D, W := i&1 != 0, i&2 != 0, i&4 != 0
+	base := r.TempDir("c19g")
+	defer vh.RemoveAll(base)
+	root := filepath.Join(base, "bin")
+	ref := filepath.Join(base, "ref")
+	_ = os.MkdirAll(root, 0o755)
+	wit := map[string]any{"trial": i, "gc_untagged": U, "gc_referrer_dangling": D, "gc_referrer_subject": W}
+	// ---- populate without collections
+	p0, err := launch(bin, "--dir", root, "--api-delete", "--gc-frequency", "-1s")
+	if err != nil {
+		r.Inconclusive("binary did not start: " + err.Error())
+		return
+	}
+	cfg := &vh.Blob{Name: "cfg", B: []byte(fmt.Sprintf(`{"g":%d,"x":%d}`, i, rng.Intn(1000)))}
+	cfg.D = vh.DigestOf("sha256", cfg.B)
+	mk := func(name, subj string) *vh.Man {
+		return vh.MkImage(name, "sha256", vh.MTImage, cfg, vh.MTConfig, nil, subj, "application/x.a", map[string]string{"n": name, "g": fmt.Sprint(i)})
+	}
+	tagged, untagged, gone := mk("tagged", ""), mk("untagged", ""), mk("subject-to-delete", "")
+	missing := vh.DigestOf("sha256", []byte(fmt.Sprint("no such subject ", i)))
+	artOK, artDangling, artOrphan := mk("artifact-of-tagged", tagged.D), mk("artifact-of-missing", missing), mk("artifact-of-deleted", gone.D)
+	okAll := true
+	put := func(p *proc, m *vh.Man, tag string) {
+		if st, _, _, _ := p.req("PUT", vh.ManifestURL("g", m, tag), map[string]string{"Content-Type": m.MT}, m.Raw); st != 201 {
+			okAll = false
+		}
+	}
+	if st, _, _, _ := p0.req("POST", "/v2/g/blobs/uploads/?digest="+cfg.D, nil, cfg.B); st != 201 {
+		okAll = false
+	}
+	put(p0, tagged, "t1")
+	put(p0, untagged, "")
+	put(p0, gone, "t3")
+	put(p0, artOK, "")
+	put(p0, artDangling, "")
+	put(p0, artOrphan, "")
+	if st, _, _, _ := p0.req("DELETE", "/v2/g/manifests/"+gone.D, nil, nil); st != 202 {
+		okAll = false
+	}
+	if ok, _ := p0.term(20 * time.Second); !ok || !okAll {
+		r.Count("gc_flag_trials_not_established", 1)
+		return
+	}
+	if err := exec.Command("cp", "-a", root, ref).Run(); err != nil {
+		r.Count("gc_flag_trials_not_established", 1)
+		return
+	}
+	all := []*vh.Man{tagged, untagged, gone, artOK, artDangling, artOrphan}
+	// ---- the reference: the equivalent configuration in-process, collections through the hook
+	rc := vh.Conf(vh.Dir, ref, vh.Policy{Untagged: U, Dangling: D, WithSubj: W, EmptyRepo: true, Grace: -1})
+	rs := vh.New(rc)
+	for k := 0; k < 3; k++ {
+		_ = rs.VerifGC(context.Background(), "g")
+	}
+	state := func(get func(path string) int) string {
+		var o []string
+		for _, m := range all {
+			o = append(o, fmt.Sprintf("%s=%d", m.Name, get("/v2/g/manifests/"+m.D)))
+		}
+		for _, sj := range []string{tagged.D, missing, gone.D} {
+			o = append(o, fmt.Sprintf("referrers(%s)=%d", vh.Short(sj), get("/v2/g/referrers/"+sj+"?n=count")))
+		}
+		return strings.Join(o, " ")
+	}
+	refState := state(func(path string) int {
+		path = strings.TrimSuffix(path, "?n=count")
+		g := vh.Do(rs, vh.Req{Method: "GET", URL: path, H: map[string]string{"Accept": vh.AcceptAll}})
+		if strings.Contains(path, "/referrers/") {
+			var idx struct {
+				Manifests []json.RawMessage `json:"manifests"`
+			}
+			_ = json.Unmarshal(g.Body, &idx)
+			return len(idx.Manifests)
+		}
+		return g.Status
+	})
+	_ = rs.Close()
+	// ---- the binary with the flags
+	p, err := launch(bin, "--dir", root, "--api-delete", "--gc-frequency", "40ms", "--gc-grace-period", "-1s",
+		fmt.Sprintf("--gc-untagged=%v", U), fmt.Sprintf("--gc-referrer-dangling=%v", D), fmt.Sprintf("--gc-referrer-subject=%v", W))
+	if err != nil {
+		r.Inconclusive("binary did not start: " + err.Error())
+		return
+	}
+	defer p.kill()
+	r.Count("binary_launches", 1)
+	for round := 0; round < 2; round++ {
+		canary := []byte(fmt.Sprintf("canary %d.%d", i, round))
+		cd := vh.DigestOf("sha256", canary)
+		collected := false
+		for k := 0; k < 600 && !collected; k++ { // 30 s watchdog: its firing decides nothing
+			if k%100 == 0 {
+				p.req("POST", "/v2/g/blobs/uploads/?digest="+cd, nil, canary)
+			}
+			time.Sleep(50 * time.Millisecond)
+			if st, _, _, err := p.req("HEAD", "/v2/g/blobs/"+cd, nil, nil); err == nil && st == 404 {
+				collected = true
+			}
+		}
+		if !collected {
+			r.Inconclusive("the binary's collection ticker did not remove an unreferenced blob within 30 s")
+			return
+		}
+	}
+	binState := state(func(path string) int {
+		path2 := strings.TrimSuffix(path, "?n=count")
+		st, _, body, _ := p.req("GET", path2, map[string]string{"Accept": vh.AcceptAll}, nil)
+		if strings.Contains(path, "/referrers/") {
+			var idx struct {
+				Manifests []json.RawMessage `json:"manifests"`
+			}
+			_ = json.Unmarshal(body, &idx)
+			return len(idx.Manifests)
+		}
+		return st
+	})
+	r.Count("gc_flag_trials", 1)
+	r.Distinct("cells", fmt.Sprintf("gcflags/%v%v%v", U, D, W))
+	if binState != refState {
+		wit["binary"], wit["same_configuration_in_process"] = binState, refState
+		r.Violation("gc-flags:behaviour-differs", fmt.Sprintf("serve --gc-untagged=%v --gc-referrer-dangling=%v --gc-referrer-subject=%v --gc-grace-period=-1s serves, after complete collections, [%s]; the same settings given as config.Config serve [%s]", U, D, W, binState, refState), wit)
+	}
+}
+
 func main() {
 	r := vh.Start()
 	bin := os.Getenv("VERIF_OLAREG")
@@ -737,6 +870,9 @@ func main() {
 	}
 	vh.Parallel(nbin, 4, func(i int) { binaryTable(r, bin, i) })
 	vh.Parallel(nsig, 3, func(i int) { sigtermTrial(r, bin, i) })
+	ngc := r.N(8, 64)
+	vh.Parallel(ngc, 4, func(i int) { gcFlagTrial(r, bin, i) })
+	r.Require("gc_flag_trials", int64(ngc/2))
 	r.Count("cases", nd+nt+nr+nbin+nsig)
 	r.Require("default_trials", int64(nd))
 	r.Require("inproc_table_trials", int64(nt*3/4))
@@ -746,5 +882,5 @@ func main() {
 	r.Require("acknowledged_pushes_verified", int64(nsig*5))
 	var _ = json.Marshal
 	var _ = rand.Int
-	r.Finish("(a) SetDefaults on random configurations (each pointer field nil/true/false, numeric fields zero / negative / explicit); (b) in-process behaviour table over all 32 switch combinations x {directory, memory}; (c) the built binary with random (thorough: all) switch combinations x store type x warning lists, probed over loopback HTTP; (d) rate limits 1/2/5/8 with bursts from a fresh address, an interleaved second address, X-Forwarded-For or RemoteAddr, window reset; (e) SIGTERM 5-255 ms into a 3-client push workload, layout validation, restart, read-back of every acknowledged push; a case is one trial, distinct = (part, cell) combinations", "cases", "cells")
+	r.Finish("(a) SetDefaults on random configurations (each pointer field nil/true/false, numeric fields zero / negative / explicit); (b) in-process behaviour table over all 32 switch combinations x {directory, memory}; (c) the built binary with random (thorough: all) switch combinations x store type x warning lists, probed over loopback HTTP; (d) rate limits 1/2/5/8 with bursts from a fresh address, an interleaved second address, X-Forwarded-For or RemoteAddr, window reset; (e) SIGTERM 5-255 ms into a 3-client push workload, layout validation, restart, read-back of every acknowledged push; (f) the collection flags of serve: all 8 combinations of --gc-untagged / --gc-referrer-dangling / --gc-referrer-subject with grace off compared, after observed complete collections, with an in-process server given the equivalent config.Config on a copy of the directory; a case is one trial, distinct = (part, cell) combinations", "cases", "cells")
 }
